@@ -89,6 +89,33 @@ func Random(n int, r *fw.Rand) *Graph {
 	return g
 }
 
+// Fan builds the shape of a project's main file: the root imports many files directly
+// (5..6), which in turn share one or two files below them.
+func Fan(r *fw.Rand) *Graph {
+	kids := r.Range(5, 6)
+	below := r.Range(1, 2)
+	n := 1 + kids + below
+	g := &Graph{Names: append([]string{}, nodeNames[:n]...), Edges: make([][]int, n), Spell: make([][]string, n)}
+	add := func(from, to int) {
+		g.Edges[from] = append(g.Edges[from], to)
+		g.Spell[from] = append(g.Spell[from], Spelling(r, g.Names[from], g.Names[to]))
+	}
+	for _, k := range r.Perm(kids) {
+		add(0, 1+k)
+	}
+	for k := 1; k <= kids; k++ {
+		for b := 0; b < below; b++ {
+			if r.Chance(1, 3) {
+				add(k, 1+kids+b)
+			}
+		}
+	}
+	if r.Chance(1, 4) {
+		add(1+kids, 0) // back to the root
+	}
+	return g
+}
+
 // DepthRace builds a graph in which a file X is reachable from the root through a short
 // and a long path and has a tail of imports below it, and returns depth limits that cut part of
 // the tail when measured along the long path but not along the short one: the shapes for which
